@@ -76,6 +76,20 @@ def isPyWs (c : Char) : Bool := c == ' ' || c == '\t' || c == '\n' || c == '\r' 
 def stripWs (cs : List Char) : List Char :=
   ((cs.dropWhile isPyWs).reverse.dropWhile isPyWs).reverse
 
+/-- exponent part `E[+-]?digits` (either case) of a decimal numeral; the empty rest is exponent 0 -/
+def parseExpPart (cs : List Char) : Option Int :=
+  match cs with
+  | [] => some 0
+  | c :: r =>
+    if c == 'E' || c == 'e' then
+      let (neg, ds) : Bool × List Char := match r with
+        | '-' :: r' => (true, r')
+        | '+' :: r' => (false, r')
+        | _ => (false, r)
+      if ds.isEmpty || !ds.all Char.isDigit then none
+      else some (if neg then -(natOfDigits ds : Int) else natOfDigits ds)
+    else none
+
 def parseDecSimple (s : String) : Option Dec :=
   let cs := stripWs s.toList
   let (neg, cs) := match cs with
@@ -84,14 +98,16 @@ def parseDecSimple (s : String) : Option Dec :=
     | _ => (false, cs)
   let ip := cs.takeWhile Char.isDigit
   let rest := cs.dropWhile Char.isDigit
-  let mk (ip fp : List Char) : Option Dec :=
+  let mk (ip fp : List Char) (tail : List Char) : Option Dec :=
     if ip.isEmpty && fp.isEmpty then none else
-      let n := natOfDigits (ip ++ fp)
-      some ⟨if neg then -(n : Int) else n, -(fp.length : Int)⟩
+      match parseExpPart tail with
+      | none => none
+      | some e =>
+        let n := natOfDigits (ip ++ fp)
+        some ⟨if neg then -(n : Int) else n, e - (fp.length : Int)⟩
   match rest with
-  | [] => if ip.isEmpty then none else mk ip []
-  | '.' :: fp => if fp.all Char.isDigit then mk ip fp else none
-  | _ => none
+  | '.' :: r => mk ip (r.takeWhile Char.isDigit) (r.dropWhile Char.isDigit)
+  | _ => if ip.isEmpty then none else mk ip [] rest
 
 def parseIntSimple (s : String) : Option Int :=
   let cs := stripWs s.toList
@@ -264,7 +280,10 @@ def semFunc (name : String) (args : List Value) : PyResult :=
   | "date", [.str s] => .ok (match parseDateISO s with | some d => .date d | none => .null)
   | "date", [_] => .ok .null
   | "date", [.int y, .int m, .int d] =>
-    if y < 0 || m < 0 || d < 0 then .ok .null else
+    -- `datetime.date(y, m, d)` converts its arguments to C ints first: OverflowError, which `date()` does not catch
+    if y > 2147483647 || m > 2147483647 || d > 2147483647 || y < -2147483648 || m < -2147483648 || d < -2147483648 then
+      .error "OverflowError"
+    else if y < 0 || m < 0 || d < 0 then .ok .null else
       let dt : Date := ⟨y.toNat, m.toNat, d.toNat⟩
       .ok (if dt.valid then .date dt else .null)
   | "neg", [.dec d] => .ok (.dec (Dec.neg d))
